@@ -126,20 +126,20 @@ CHECKS = {
 
 # additions of round 13 (mid-scale, wide-manager, long-formula and long-history regimes), appended to the level notes
 ROUND13 = {
-    "C01": " Mid-scale regime (bddmid.rs): a rule-defined family of about 200 operand functions over 8 variables (10 in thorough) against 2^n-bit truth tables, all ordered pairs of the core operands, unary operations, aliased ite shapes, lists of 4..2n elements, run-time variables; four orders, a 130-variable manager, and managers in label order / reversed label order with table variables at levels on both sides of 2^8 and 2^16 (up to 65 600 variables).",
+    "C01": " Mid-scale regime (bddmid.rs): a rule-defined family of about 200 operand functions over 8 variables (10 in thorough) against 2^n-bit truth tables, all ordered pairs of the core operands, unary operations, aliased ite shapes, lists of 4..2n elements, run-time variables; four orders, a 130-variable manager, and managers in label order / reversed label order with table variables at levels on both sides of 2^8 and 2^16 (up to 65 600 variables). Round 14: also 11 variables, 13 variables for the unary operations only (partial models of every length 1 to 13), and the labels 5, 90, 100, 101, 999, 1000, 4999, 5000.",
     "C02": " The mid-scale and huge-manager configurations of C01 feed the same canonicity map and shape walk.",
-    "C03": " Mid-scale and wide regimes (sddmid.rs): the operand families over 8 (10) variables on five vtree shapes, and eight table variables at labels on both sides of 32 / 64 (and pairs l, l + 64) inside right-linear, left-linear and balanced vtrees of 70 (130) leaves; every configuration in a worker process of its own (a worker ended by SIGABRT / SIGSEGV is that configuration's finding).",
+    "C03": " Mid-scale and wide regimes (sddmid.rs): the operand families over 8 (10) variables on five vtree shapes, and eight table variables at labels on both sides of 32 / 64 (and pairs l, l + 64) inside right-linear, left-linear and balanced vtrees of 70 (130) leaves; every configuration in a worker process of its own (a worker ended by SIGABRT / SIGSEGV is that configuration's finding). Round 14: mixed vtrees (neither linear nor balanced) over 9, 11 variables and 100 leaves, a 12-variable balanced configuration with 64-element decision nodes.",
     "C04": " Normal-form walk and function -> pointer map also on the 8-variable mid-scale configurations; function -> pointer map on the 70-leaf vtrees.",
-    "C05": " Long formulas (longcnf.rs): rule-defined families of 9 to 70 distinct non-unit clauses over 6 to 10 variables (clause counts around 16 / 32 / 64), BDD builder under three orders incl. compilation under partial assignments, SDD builder on two vtrees, 2^n-bit truth-table oracle.",
+    "C05": " Long formulas (longcnf.rs): rule-defined families of 9 to 70 distinct non-unit clauses over 6 to 10 variables (clause counts around 16 / 32 / 64), BDD builder under three orders incl. compilation under partial assignments, SDD builder on two vtrees, 2^n-bit truth-table oracle. Round 14: very wide clauses (9 to 40 (60) literals plus a short clause), each diagram evaluated on the wide clause's falsifying assignment and all assignments at Hamming distance <= 2 from it; clause counts 11, 23, 37, 45, 50, 57 added.",
     "C06": " The long formulas of C05 through the top-down compiler (three orders, both stores, conditioning of the result and of its negation).",
-    "C07": " Wide managers (wide.rs): eight table variables at labels that collide modulo 32 / 64 inside managers of 40 to 300 variables; operand families as BDD, SDD and decision-DNNF; real-valued and modular counts and evaluate against brute force over the table variables.",
+    "C07": " Wide managers (wide.rs): eight table variables at labels that collide modulo 32 / 64 inside managers of 40 to 300 variables; operand families as BDD, SDD and decision-DNNF; real-valued and modular counts and evaluate against brute force over the table variables. Round 14: managers of 100 and 1001 variables; SDD decision nodes of up to 256 elements with distinct subs (xorshift-filled truth table over 11 / 12 variables on vtrees with root splits 8 | 4, 7 | 5, 6 | 5).",
     "C08": " Wide managers: smoothing over all levels of managers of 40 to 300 variables (label order and reversed), operand families plus ite(xa, g, xb & g) over every ordered triple of table variables; structure (every edge from level i to i + 1), function, weighted and unweighted counts.",
     "C09": " Long formulas of 48 to 75 literal occurrences over 6 variables, each explored (BFS, at most 2 open decisions) directly after a short formula on the same thread; the hash is a wrapping product there, so the hash clause is decided for the explored states.",
-    "C10": " Very long histories: a query on h, k queries on an unrelated diagram, a query on f (sharing h's nodes) with another table, k in windows around 2^8 / j and 2^16 / j (j = 1, 2, 3, 4, 64, 128).",
+    "C10": " Very long histories: a query on h, k queries on an unrelated diagram, a query on f (sharing h's nodes) with another table, k in windows around 2^8 / j and 2^16 / j (j = 1, 2, 3, 4, 64, 128). Round 14: call counts around 1000 ... 100 000; large diagrams (xorshift-filled truth tables over 13 and 15 variables, about 1100 and 4150 nodes), every ordered pair of a first and a second query on a fresh builder.",
     "C11": " After the cached hashes every diagram is also hashed un-cached with a second weight table of the same field and with the shipped table of another exported field; the hash-identified SDD builder also runs the mid-scale and wide configurations of C03.",
     "C12": " Wide managers: 40, 70 and 130 variables with table variables at l and l + 32 / l + 64, operand families, every single / ordered pair / rotating triple of table variables as query list, marginal_map and bb<Real> against brute force.",
     "C13": " Large-magnitude laws: Gaussian integers and reals with components up to 2^53, for exactly the tuples on which every product and sum of the defining formulas is exactly representable (checked in 128-bit integers).",
-    "C14": " Large vtrees: right-linear, left-linear, balanced and scrambled balanced vtrees of 33 to 257 leaves (17 to 300 in thorough) through the complete index / lca / prime-relation / count check.",
+    "C14": " Large vtrees: right-linear, left-linear, balanced and scrambled balanced vtrees of 33 to 257 leaves (17 to 300 in thorough) through the complete index / lca / prime-relation / count check. Round 14: 11, 37, 100 leaves and the mixed shape; the long-formula families and chains / ladders / stars over up to 260 variables through the order and dtree checks.",
     "C16": " C16 also runs the compressing configurations of the mid-scale / wide SDD regime: a stride of pair operations and, on the 70-leaf vtrees, every ordered pair of literals under and / or compared with a cold builder.",
     "C17": " Deep diagrams: conjunction, parity and ite-of-halves over 66, 130, 258 (34 to 300) variables as SDD on four vtree shapes and as BDD in two orders, both polarities, the JSON evaluated by a memoised reader under about 120 rule-defined assignments each.",
     "C18": " Weight tables behind the C interface as objects with histories: every sequence of at most 4 (5) set_weight calls over four labels on the f64 / complex / polynomial tables in lock step with native tables; getters and counts compared.",
